@@ -16,9 +16,11 @@
    exactly once or ignored because its id is surely in flight (or throttled, C12); every response
    written answers the latest incarnation of its id, which is not yet closed by its Cancel /
    expiry / an earlier answer, with exactly the value its handler completed with; nothing is
-   written after the channel is dropped.  The simulation it needs is proved up to the poll step
-   for the unconditional part of the invariant (ServerSim6.top_poll); the part that depends on
-   the hypothesis (surely-open => tracked, provenance of queued responses) is not proved. *)
+   written after the channel is dropped.  The exact statement, for every transport, is pinned as
+   ServerSpec.stmt_s08 (flag level: stmt_s_v08).  The simulation it needs is proved along every run
+   for the unconditional part of the invariant (ServerSim6.run_top); the part that depends on the
+   hypothesis (surely-open => tracked, provenance of queued responses, no stale server cancel) is
+   not proved. *)
 From Coq Require Import List Bool Arith NArith.
 Import ListNotations.
 From TarpcV Require Import Base Transport TimerWheel Server ServerMon ServerWitness ServerState.
